@@ -232,6 +232,8 @@ class Compatible(Harness):
         a.opacity = b.opacity = None
         if diff == 'opacity':
             b.opacity = 0.5
+        if diff == 'res_range':
+            a.res_range = ctx['g'].resolution_range(min_res=100000, max_res=1000)
         if diff == 'transparent_color':
             b.transparent_color = (255, 255, 255)
         q = ly.MapQuery((0, 0, 10, 10), (10, 10), srs, 'image/png', dimensions={'elevation': elev})
@@ -260,6 +262,8 @@ CANARIES = [
     ('combination skips over a non-combinable layer', 'Combine', {'mapproxy.service.wms': [(
         "        else:\n            combined_layers.append(current_layer)\n    return combined_layers",
         "        else:\n            combined_layers.insert(0, current_layer)\n    return combined_layers")]}, dict(n=3)),
+    ('sources with different resolution ranges combined', 'Compatible', {'mapproxy.source.wms': [(
+        "        if self.res_range != other.res_range:\n            return False\n", "")]}, dict(differs='res_range')),
     ('sources with different coverages combined', 'Compatible', {'mapproxy.source.wms': [(
         "        if self.coverage != other.coverage:\n            return False\n", "")]}, dict(differs='coverage')),
 ]
@@ -276,7 +280,7 @@ def obligations(tier, seed):
     specs.append(spec(MOD, 'FastPath', 'single-layer-fast-path', cfg={}, cost=5))
     for n in ((2, 3, 4, 5) if tier == 'thorough' else (2, 3, 4)):
         specs.append(spec(MOD, 'Combine', 'combined-layers/n%d' % n, cfg=dict(n=n)))
-    for d in ('none', 'srs', 'formats', 'coverage', 'opacity', 'transparent_color', 'fwd'):
+    for d in ('none', 'srs', 'formats', 'coverage', 'opacity', 'transparent_color', 'fwd', 'res_range'):
         specs.append(spec(MOD, 'Compatible', 'combine-compatible/%s' % d, cfg=dict(differs=d)))
     twins = dict(OpaqueSound=ocfgs[0], FastPath={}, Combine=dict(n=3), Compatible=dict(differs='coverage'))
     for h, c in twins.items():
